@@ -10,6 +10,7 @@
 -/
 import Psa.Proofs.EncBound
 import Psa.Cbor.Consumes
+import Psa.Cbor.FuelFree
 import Psa.Tie.Encoding
 import Psa.Tie.Facts.Alloc
 namespace Psa.Props.C06
@@ -46,6 +47,13 @@ theorem indefinite_loop_terminates (f : Nat) (rest : Bytes) (m : OMap) (h : rest
 theorem item_decoder_consumes (bs : Bytes) (t : Cbor) (rest : Bytes) (h : Cbor.decodeFirst {} bs = some (t, rest)) :
     rest.length < bs.length :=
   (Cbor.decodeFirst_consumes {} bs t rest h).length_lt
+
+/-- **the model of the library's item decoder is not cut short by its fuel**: the fuel the model passes (`length + 1`) is
+    never what makes it stop — any larger amount gives the same answer, success or failure — so the model's verdicts on
+    nesting and truncation are those of an unbounded recursive descent -/
+theorem item_decoder_fuel_never_binds (d : Nat) (bs : Bytes) (F : Nat) (hF : bs.length + 1 ≤ F) :
+    Cbor.dec {} F d bs = Cbor.dec {} (bs.length + 1) d bs :=
+  Cbor.dec_fuel_irrelevant {} d bs F hF
 
 /-- the additional-information reader (regenerated from /repo) never returns more bytes than it was given -/
 theorem header_reader_shrinks (ai : Nat) (data r : Bytes) (n : Nat) (hai : ai < 32)
